@@ -320,6 +320,8 @@ PLAN["C20"] = {
              "scrape now, wait-for-idle}. Requests come from the C09 grammar (all methods; valid, unsatisfiable, malformed, mis-shaped, gray bodies; thorough adds non-standard methods, labelled 'unknown'). Model = the client's tally "
              "(lower-cased method, status code) -> number of completed responses. Oracle: at every wait-for-idle and at the end, /metrics is polled (<= 90 s, early exit; the counter is incremented after the response bytes are sent) until "
              "http_requests_total{endpoint_pattern=\"/prove\"} equals the tally for every label pair with no extra pairs and http_requests_in_flight reads 0; every scrape (including those during bursts) answers 200 on the metrics address - a slow scrape is not a verdict (client limit 150 s; during a burst a timed-out scrape is skipped); while the harness HOLDS requests in flight (half-uploaded bodies) a scrape that stays silent is asked again with minutes of patience and compared with a control scrape after the requests are released before 'unavailable' is reported; no counter ever decreases between scrapes; when >= 3 scrapes completed strictly inside the lifetime of a request that returned a proof, at least one of them read in-flight >= 1. "
+             "A third of the sequences also contain a complete VALID document followed by trailing data ('}', ' x', a second document, ' null', ']'): the body is not one JSON text, hence malformed_body is required. "
+             "(Linger) one case per run keeps five valid requests half-uploaded for 6/12/17/33/65 s (+0-3 s drawn; thorough also 125 and 305 s) while ordinary requests go through, completes them, and compares totals with what the clients received - a response counted but never delivered (a server-side write deadline that started with the headers) shows here; a server that cuts slow clients off is fine as long as it counts what it sent. "
              "Non-trivial = a history with a concurrent burst, or >= 2 distinct (method, code) pairs including a 200 and an error; distinct = SHA-1 of the canonical history."),
     "assumptions": A_COMMON + ["the in-flight >= 1 observation is only required when scrapes provably overlapped a proof (client-side timestamps with 50 ms margins), so scheduling noise cannot fail it"],
     "technique": "model-based stateful property testing (client-side tally vs. scraped Prometheus series), with concurrent bursts and polling to a fixed point",
@@ -361,6 +363,8 @@ PLAN["C14"] = {
              "(CLI) the built binary 'start' on a keys file, readiness = completed /metrics round trip + 300 ms, k in 0..2 requests in flight, SIGINT. Oracle: every request confirmed in flight before the stop gets a complete 200 response whose proof "
              "verifies; AwaitStop returns; both addresses bind immediately afterwards and refuse connections; the CLI exits with status 0 and frees both ports; deadlock = AwaitStop/exit not observed 90-120 s after the stop although all client requests "
              "completed and still blocked 10 s later. A crash of the process with the repository's frames in the trace (the unrecoverable bind panic) is reported as a violation with the step history written so far. "
+             "Half of the rounds contain one or two clients with valid requests that walk away (close their connection) 2-800 ms after sending; no response is owed to them, every other client's response must still be its own, and a follow-up valid request after the round must be answered 200 with its own proof. "
+             "(CLI, start-up) 'start' with the keys file behind a FIFO so that loading lasts as long as the harness likes; SIGINT 0.4 s and 1.5 s (thorough also 5 and 60 ms) after process start, then the keys are fed: the process must either end at once (no handler yet) or stop after loading - it must not start serving and stay (positive sign: prover address accepting connections and the process alive 30 s later). "
              "Non-trivial = a cycle with >= 1 request in flight at the stop, a stop issued before the listeners were up, or >= 2 cycles on one address pair; every immediate cycle counts (distinct by construction), rapid cases by SHA-1."),
     "assumptions": A_COMMON + ["timing is sampled: delays are drawn, the scheduler decides the rest; GOMAXPROCS 2 and 16 are both exercised", "SIGINT before the signal handler is installed is outside the stated domain (readiness wait)"],
     "technique": "stateful property testing of start/stop histories with drawn delays and in-flight requests; high-volume immediate-stop cycles; CLI under SIGINT",
@@ -407,6 +411,7 @@ PLAN["C12"] = {
              "(followed by proving with the imported system and verifying with the original), and in thorough through the CLI 'setup' (constraint-system section = file tail). Oracle (metamorphic): the SHA-256 of ConstraintSystem.WriteTo is identical "
              "across every path, run and process for one triple, and different for different triples seen in the run; the system has exactly one public input besides the constant wire; imported systems keep their dimensions. "
              "(Guard) deletion depth 32/33/64 is refused by BuildR1CSDeletion, SetupDeletion, ImportDeletionSetup and by the CLI 'r1cs' and 'setup' (non-zero exit, no output content). "
+             "A 'relatives' path builds, in the same process, the other mode at the same dimensions, the same mode at another batch size and at another depth (each must compile to a system different from this triple's) and then this triple again - state carried between builds under too small a key shows here. "
              "Non-trivial = a triple compared across >= 2 different paths or >= 2 builds; distinct = SHA-1 of (triple, paths)."),
     "assumptions": A_COMMON + ["'any scheduling' is sampled through GOMAXPROCS values, repetition and concurrent compilation only"],
     "technique": "metamorphic property testing: the compiled system's digest as a function of (mode, depth, batch) only, across construction paths, repetitions and fresh processes",
